@@ -741,6 +741,54 @@ func exec(op string) vlib.Res {
 		// sub cachehit <n>: a hot cache entry whose per-entry client rate limit an
 		// external client has just exhausted must still answer internal sub-queries.
 		return subCacheHit(vlib.Atoi(f[2]))
+	case "cfg load":
+		// cfg load <label,label,…>: the views and the access list as an operator
+		// writes them in the configuration FILE, through the real config.Load, then
+		// the real views.New: declaration order is what "first matching view"
+		// means. Every view i holds 10.0.0.0/8 (all overlap) and answers x.viewzone.
+		// with 10.9.0.<i+1>; a client in 10/8 must get the FIRST declared view.
+		labels := strings.Split(f[2], ",")
+		var b strings.Builder
+		b.WriteString("version = \"test\"\naccesslist = [")
+		for i := range labels {
+			fmt.Fprintf(&b, "\"10.%d.0.0/16\", ", len(labels)-i)
+		}
+		b.WriteString("]\n")
+		for i, l := range labels {
+			fmt.Fprintf(&b, "[[views]]\nzone = %q\nnetworks = [\"10.0.0.0/8\"]\nanswers = [\"x.viewzone. 60 IN A 10.9.0.%d\"]\n", l, i+1)
+		}
+		dir, _ := os.MkdirTemp(os.Getenv("VERIF_TMP"), "c17cfg")
+		defer os.RemoveAll(dir)
+		path := dir + "/sdns.conf"
+		_ = os.WriteFile(path, []byte(fmt.Sprintf("directory = %q\n", dir+"/db")+b.String()), 0o600)
+		cfg, err := config.Load(path, "test")
+		if err != nil {
+			return vlib.Res{Impl: "load-error", Oracle: "FAIL sig=cfg/load/valid-file-refused " + err.Error()}
+		}
+		var got []string
+		for _, v := range cfg.Views {
+			got = append(got, v.Zone)
+		}
+		vw := views.New(cfg)
+		st := &stub{}
+		ch := middleware.NewChain([]middleware.Handler{vw, st})
+		w := mock.NewWriter("udp", "10.1.2.3:4242")
+		ch.Reset(w, query())
+		ch.Next(context.Background())
+		first := "none"
+		if w.Written() && len(w.Msg().Answer) == 1 {
+			if a, ok := w.Msg().Answer[0].(*dns.A); ok {
+				first = fmt.Sprint(int(a.A.To4()[3]))
+			}
+		}
+		or := "ok"
+		if strings.Join(got, ",") != f[2] {
+			or = "FAIL sig=cfg/load/views-not-in-declaration-order got=" + strings.Join(got, ",")
+		} else if first != "1" {
+			or = "FAIL sig=cfg/load/first-declared-view-did-not-answer got=" + first
+		}
+		acl := strings.Join(cfg.AccessList, ",")
+		return vlib.Res{Impl: fmt.Sprintf("views=%s first=%s acl=%d", strings.Join(got, ","), first, strings.Count(acl, ",")+1), Oracle: or, Tags: "nt"}
 	case "sub query":
 		// Internal sub-queries bypass every client-only policy: a
 		// pipeline whose access list denies everything (and whose rate
@@ -944,6 +992,14 @@ func genAddr(r *vlib.R, pool []netip.Prefix) string {
 func gen(r *vlib.R, n int, tier string, emit func(string)) {
 	emit("sub query 5")
 	emit("sub cachehit 6")
+	for i := 0; i < 3; i++ {
+		labs := []string{"wifi-guests", "all-lan", "vpnnet", "lannet", "Zeta", "alpha", "m1", "b"}
+		for k := len(labs) - 1; k > 0; k-- {
+			j := r.Intn(k + 1)
+			labs[k], labs[j] = labs[j], labs[k]
+		}
+		emit("cfg load " + strings.Join(labs[:2+r.Intn(5)], ","))
+	}
 	// real sockets and the real DoH handler: a few lists that do / do not
 	// contain the loopback source, DoH peers in and out, forwarding headers
 	lives := 4
@@ -970,7 +1026,7 @@ func gen(r *vlib.R, n int, tier string, emit func(string)) {
 		}
 		// peers a reverse proxy would have: loopback and private sources, whose
 		// forwarding headers a server might be tempted to believe
-		priv := []string{"4:7f000001", "4:0a010203", "4:c0a80207", "4:ac100505", "6:fd000000000000000000000000000001", "6:00000000000000000000000000000001", "m:c0a80207"}
+		priv := []string{"4:7f0000ff", "m:7f0000ff", "4:7f000001", "4:0a010203", "4:c0a80207", "4:ac100505", "6:fd000000000000000000000000000001", "6:00000000000000000000000000000001", "m:c0a80207"}
 		for j := 0; j < 3; j++ {
 			peers = append(peers, vlib.Pick(r, priv))
 		}
@@ -993,6 +1049,9 @@ func gen(r *vlib.R, n int, tier string, emit func(string)) {
 			for i := 0; i < q; i++ {
 				emit(fmt.Sprintf("acl serve %s %s %s", genAddr(r, pool), vlib.B(r.Chance(1, 6)), vlib.Pick(r, []string{"udp", "tcp", "doh"})))
 			}
+			// the resolver's own sentinel address arriving from a real port is a client
+			emit(fmt.Sprintf("acl serve %s f %s", vlib.Pick(r, []string{"4:7f0000ff", "m:7f0000ff"}), vlib.Pick(r, []string{"udp", "tcp", "doh"})))
+			n--
 			// the batched UDP reader's own sockaddr decoding: v6 sources that merely
 			// look like a mapped address in their LAST 64 bits are still v6
 			for j := 0; j < 2; j++ {
